@@ -113,10 +113,6 @@ func (r *reader) ReadHeader() error {
 		return r.error
 	}
 
-	for i := 0; i < int(r.numTracks); i++ {
-		r.Tracks = append(r.Tracks, Track{})
-	}
-
 	return r.error
 }
 
@@ -164,6 +160,12 @@ func (r *reader) ReadTracks() (err error) {
 		r.log("message %v", m)
 		//fmt.Printf("message %v\n", m)
 		tr := int(r.Track())
+
+		// tracks are created when their chunk turns up, not on the word of the
+		// header (which may declare none, or 65535 of them in a 14 byte file)
+		for len(r.Tracks) <= tr {
+			r.Tracks = append(r.Tracks, Track{})
+		}
 
 		/*
 			// TODO maybe remove this after lots of tests
